@@ -47,6 +47,7 @@ static TaskPlan gen_task(Rng &r, bool thorough, char force_dtype = 0) {
         if (ru.chance(0.25)) {
             Op u; u.kind = "util"; u.slot = 0; u.stages = 1 + (int)ru.below(63); u.nrhs = ru.range(1, 3); u.ldpad = ru.chance(0.4) ? 2 : 0;
             u.trans = ru.chance(0.5) ? TRANS : NOTRANS; u.rhs_seed = ru.next();
+            u.stages |= ((u.rhs_seed >> 20) & 1 ? 64 : 0) | ((u.rhs_seed >> 21) & 1 ? 128 : 0);
             t.ops.insert(t.ops.begin() + 1 + (size_t)ru.below(t.ops.size()), u);
         }
     }
